@@ -7,7 +7,8 @@ Oracle (independent of the model): on supported trees and well-formed configurat
   OrAndAndOnSameLevel                                       iff  no container_misuse and mix(cfg, tree)
   a JSON                                                    otherwise
 with container_misuse / mix the structural predicates of es_common (every ancestor of a declared path is a
-container).  Known findings: F7 (range bound under `-`), F8 (container without leaf child not recognised).
+container).  Known finding: F8 (container without leaf child not recognised).  F7 (range bound under `-`:
+AttributeError) was repaired by commit 8352212; its inputs stay in the corpus as regression cases.
 """
 import lib
 import es_common as E
@@ -46,12 +47,8 @@ def classify(T, cfg, tree, outcome):
     if E.container_misuse(T, cfg, tree, True) and not E.container_misuse(T, cfg, tree, False):
         # F8: the misplaced term sits on a container that is not the parent of a declared path;
         # the code then behaves as if there were no misuse
-        if observed(outcome) == predicted(T, cfg, tree, False) or \
-                (not E.range_bounds_plain(T, tree) and outcome == ("exc", "AttributeError")):
+        if observed(outcome) == predicted(T, cfg, tree, False):
             return "F8"
-    if not E.range_bounds_plain(T, tree) and outcome == ("exc", "AttributeError") \
-            and not E.container_misuse(T, cfg, tree, False):
-        return "F7"
     return None
 
 
@@ -66,9 +63,9 @@ def correspond(model_ok, res):
         ({"object_fields": ["a.b.c"], "sub_fields": []},
          [parser.parse("a:y"), parser.parse("a.b:y"), parser.parse("a.b.c:y")], "F8"),
         ({}, [parser.parse("a:[-1 TO 5]"), parser.parse("[-1 TO 5] AND b OR c"),
-              parser.parse('a:[1 TO -"x y"]')], "F7"),
+              parser.parse('a:[1 TO -"x y"]')], "F7-regression"),
     ] + E.builder_sessions(r, T, n)
-    stats = {"oracle_cases": 0, "predicted": {"field": 0, "mix": 0, "ok": 0}, "F7": 0, "F8": 0}
+    stats = {"oracle_cases": 0, "predicted": {"field": 0, "mix": 0, "ok": 0}, "F8": 0}
 
     def oracle(cfg, tree, outcome, info):
         if not (E.supported(T, tree) and wf_config(cfg)):
@@ -100,14 +97,14 @@ SPEC = {
     "targets": ["props/C07.vo"],
     "model_targets": ["model/EsBuild.vo", "model/EsSpec.vo"],
     "module": "C07",
-    "theorems": ["C07_container_partial", "C07_container_sound", "C07_mix_partial", "C07_translated_partial",
-                 "C07_container_refuted", "C07_mix_refuted", "C07_translated_refuted"],
+    "theorems": ["C07_container_partial", "C07_container_sound", "C07_mix_partial", "C07_translated",
+                 "C07_container_refuted", "C07_mix_refuted"],
     "correspond": correspond,
     "statement": "on supported trees and well-formed configurations: Nested/ObjectSearchFieldException iff a term "
                  "sits on a declared container or an undeclared dotted field; OrAndAndOnSameLevel iff no such "
                  "misuse and an AND-like operation has an OR-like direct operand (or vice versa); otherwise a "
-                 "JSON is produced.  Full statements refuted (F7, F8); proved under containers_have_leaf cfg "
-                 "and range_bounds_plain tree (translated: range_bounds_plain only)",
+                 "JSON is produced.  The last clause (and 'a checker refusal is a real misuse') proved in full; "
+                 "the two iff clauses refuted (F8) and proved under containers_have_leaf cfg",
     "trusted_base": [
         "Coq 8.16.1 kernel (vm_compute for table facts, witnesses and correspondence; no native_compute)",
         "no axioms (Print Assumptions: closed under the global context)",
@@ -116,7 +113,7 @@ SPEC = {
         "hand-written models coq/model/{Json,EsSpecs,EsCheck,EsBuild}.v of luqum.utils spec normalisers, "
         "CheckNestedFields, ElasticsearchQueryBuilder and the E-items, tied by differential correspondence "
         "(harness/es_common.py, harness/c07.py) on every run; class-level constants of "
-        "luqum/elasticsearch/tree.py are hard-coded in EsBuild.v (marked E-CONST)",
+        "luqum/elasticsearch/tree.py come from the generated coq/gen/GenEs.v",
         "value-based model of the mutable E-items (argued in EsBuild.v, validated by correspondence)",
     ],
     "assumptions": [
